@@ -385,4 +385,193 @@ Section Stored.
     cbn [obind fst snd] in H. rewrite (IH _ _ _ _ _ H).
     eapply tr_member_frame; [|exact Em]. intros m0 m2 Hd. eapply tr_present_frame_any; [apply Hps; exact Hin | exact Hd].
   Qed.
+
+  (* ---------------------------------------------------------------- every non-null scalar member is stored *)
+  Lemma bytes_eqb_eq a : forall b, bytes_eqb a b = true <-> a = b.
+  Proof.
+    induction a as [|x r IH]; intros [|y s]; cbn; split; intros H; try reflexivity; try discriminate.
+    - apply andb_prop in H. destruct H as [H1 H2]. apply N.eqb_eq in H1. apply IH in H2. subst. reflexivity.
+    - inversion H; subst. rewrite N.eqb_refl. cbn. apply IH. reflexivity.
+  Qed.
+
+  Lemma mem_bytes_differ a b seen : mem_bytes a seen = true -> mem_bytes b seen = false -> bytes_eqb a b = false.
+  Proof.
+    intros Ha Hb. destruct (bytes_eqb a b) eqn:E; [|reflexivity].
+    apply bytes_eqb_eq in E. subst. congruence.
+  Qed.
+
+  (* distinct properties of a set write to independent places *)
+  Definition props_separate (props : list property) : Prop :=
+    forall q1 q2, In q1 props -> In q2 props -> bytes_eqb (p_json q1) (p_json q2) = false ->
+                  p_path q1 <> [] -> indep_prop (p_path q1) q2.
+
+  (* once a member's property has its value, the rest of the object body leaves its field alone *)
+  Lemma tail_preserves props p : props_separate props -> In p props -> p_path p <> [] ->
+    forall f d ms m seen m', mem_bytes (p_json p) seen = true ->
+    tr_object orc e f d props ms m seen = Ok m' -> get_path (p_path p) m' = get_path (p_path p) m.
+  Proof.
+    intros Hsep Hin Hq. induction f as [|f IH]; intros d ms m seen m' Hseen H; [discriminate|].
+    rewrite tr_object_S in H. destruct ms as [|[key v] r]; [inversion H; reflexivity|].
+    destruct (find_prop props key) as [q|] eqn:Eq; [|discriminate].
+    destruct (find_prop_In _ _ _ Eq) as [Hinq _].
+    destruct (tr_member d (tr_present orc e f (d + 1) q) q v m seen) as [[m1 seen1]| | |] eqn:Em; try discriminate.
+    cbn [obind fst snd] in H.
+    assert (Hs1 : mem_bytes (p_json p) seen1 = true /\ get_path (p_path p) m1 = get_path (p_path p) m).
+    { unfold tr_member in Em. destruct (max_nesting_depth <? d + 1)%N; [discriminate|].
+      destruct v; try (inversion Em; subst; split; [exact Hseen|reflexivity]);
+        (destruct (mem_bytes (p_json q) seen) eqn:Eqs; [discriminate|]);
+        (destruct (oneof_conflict q m); [discriminate|]);
+        match type of Em with context[tr_present orc e f (d + 1) q ?v m] =>
+          destruct (tr_present orc e f (d + 1) q v m) as [m2| | |] eqn:Ep end; try discriminate;
+        cbn [obind] in Em; inversion Em; subst;
+        (split; [cbn [mem_bytes]; rewrite Hseen; apply orb_true_r |
+                 eapply tr_present_frame_any; [|exact Ep];
+                 apply Hsep; try assumption; eapply mem_bytes_differ; eassumption]). }
+    destruct Hs1 as [Hs1 Hg1]. rewrite (IH _ _ _ _ _ Hs1 H). exact Hg1.
+  Qed.
+
+  Theorem scalar_member_stored props : props_separate props ->
+    forall f d ms m seen m', tr_object orc e f d props ms m seen = Ok m' ->
+    forall key v p k, In (key, v) ms -> v <> JNull -> find_prop props key = Some p ->
+      p_ty p = FScalar k -> p_path p <> [] ->
+      exists x, scalar_from_go orc k (goval_of_json v) = Ok x /\ get_path (p_path p) m' = stored_scalar p x.
+  Proof.
+    intros Hsep. induction f as [|f IH]; intros d ms m seen m' H key v p k Hin Hv Hp Hk Hq; [discriminate|].
+    rewrite tr_object_S in H. destruct ms as [|[key0 v0] r]; [contradiction|].
+    destruct (find_prop props key0) as [q|] eqn:Eq; [|discriminate].
+    destruct (tr_member d (tr_present orc e f (d + 1) q) q v0 m seen) as [[m1 seen1]| | |] eqn:Em; try discriminate.
+    cbn [obind fst snd] in H.
+    destruct Hin as [Heq | Hin]; [|eapply IH; eassumption].
+    inversion Heq; subst key0 v0; clear Heq. rewrite Hp in Eq. inversion Eq; subst q; clear Eq.
+    destruct (find_prop_In _ _ _ Hp) as [Hinp _].
+    unfold tr_member in Em. destruct (max_nesting_depth <? d + 1)%N; [discriminate|].
+    assert (G : exists m2, tr_present orc e f (d + 1) p v m = Ok m2 /\ m1 = m2 /\ seen1 = p_json p :: seen).
+    { destruct v; try congruence;
+        (destruct (mem_bytes (p_json p) seen); [discriminate|]);
+        (destruct (oneof_conflict p m); [discriminate|]);
+        match type of Em with context[tr_present orc e f (d + 1) p ?v m] =>
+          destruct (tr_present orc e f (d + 1) p v m) as [m2| | |] eqn:Ep end; try discriminate;
+        cbn [obind] in Em; inversion Em; subst; eauto. }
+    destruct G as (m2 & Ep & -> & ->).
+    destruct (scalar_member_own f (d + 1) p k v m m2 Hk Hq Ep) as (x & Hx & Hg).
+    exists x. split; [exact Hx|].
+    rewrite (tail_preserves props p Hsep Hinp Hq f d r m2 (p_json p :: seen) m'); [exact Hg | | exact H].
+    cbn [mem_bytes]. replace (bytes_eqb (p_json p) (p_json p)) with true; [reflexivity|].
+    symmetry. apply bytes_eqb_eq. reflexivity.
+  Qed.
+
+  (* ---------------------------------------------------------------- arrays: every element, in order *)
+  Theorem array_elements_stored k : forall f d js acc l,
+    tr_array orc e f d (FScalar k) js acc = Ok l ->
+    exists vals, l = acc ++ vals /\
+      Forall2 (fun j x => is_container j = false /\ scalar_from_go orc k (goval_of_json j) = Ok (Some x)) js vals.
+  Proof.
+    induction f as [|f IH]; intros d js acc l H; [discriminate|].
+    rewrite tr_array_S in H. destruct js as [|v r].
+    - inversion H; subst. exists []. split; [rewrite app_nil_r; reflexivity|constructor].
+    - destruct (is_container v) eqn:Ec; [discriminate|].
+      destruct (scalar_from_go orc k (goval_of_json v)) as [[x|]| | |] eqn:Es; try discriminate.
+      cbn [obind list_append] in H. apply IH in H. destruct H as (vals & -> & HF).
+      exists (x :: vals). split; [rewrite <- app_assoc; reflexivity|]. constructor; [split; assumption|exact HF].
+  Qed.
+
+  (* the own field of an array-of-scalars member: the list of all converted elements *)
+  Lemma array_member_own f d p k v m m1 :
+    p_ty p = FArray (FScalar k) -> p_path p <> [] -> tr_present orc e f d p v m = Ok m1 ->
+    exists js l, v = JArr js /\ get_path (p_path p) m1 = stored_form true (VList l) /\
+      exists base vals, l = base ++ vals /\
+        Forall2 (fun j x => is_container j = false /\ scalar_from_go orc k (goval_of_json j) = Ok (Some x)) js vals.
+  Proof.
+    intros Hk Hq H. destruct f as [|f]; [discriminate|]. rewrite tr_present_S in H. rewrite Hk in H.
+    destruct v as [| | | |js|]; try discriminate. exists js.
+    apply omap_fst_ok in H. destruct H as [a H].
+    destruct (with_holder_own (p_path p) _ Hq m m1 a H) as (n & h & h' & _ & Hkk & Hg).
+    cbv beta zeta in Hkk.
+    destruct (tr_array orc e f d (FScalar k) js _) as [l| | |] eqn:Ea; try discriminate.
+    cbn [obind] in Hkk. injection Hkk as Hh _. subst h'.
+    exists l. split; [reflexivity|]. split.
+    - rewrite Hg. exact (msg_get_set_same true (p_siblings p) n (VList l) h).
+    - apply array_elements_stored in Ea. destruct Ea as (vals & -> & HF). eauto.
+  Qed.
+
+  (* ---------------------------------------------------------------- nested objects: the sub-message is the decode of the sub-object *)
+  Lemma object_member_own f d p ref v m m1 :
+    p_ty p = FObject ref -> p_path p <> [] -> tr_present orc e f d p v m = Ok m1 ->
+    exists ms props sub0 sub' f', v = JObj ms /\ lookup e ref = Some (SObject props) /\
+      tr_object orc e f' d props ms sub0 [] = Ok sub' /\ get_path (p_path p) m1 = Some (VMsg sub').
+  Proof.
+    intros Hk Hq H. destruct f as [|f]; [discriminate|]. rewrite tr_present_S in H. rewrite Hk in H.
+    destruct v as [| | | | |ms]; try discriminate.
+    destruct (lookup e ref) as [[props| |]|] eqn:El; try discriminate.
+    apply omap_fst_ok in H. destruct H as [a H].
+    destruct (with_holder_own (p_path p) _ Hq m m1 a H) as (n & h & h' & _ & Hkk & Hg).
+    cbv beta in Hkk. destruct (msg_mutable (p_siblings p) n h) as [sub0 h1].
+    destruct (tr_object orc e f d props ms sub0 []) as [sub'| | |] eqn:Eo; try discriminate.
+    cbn [obind] in Hkk. injection Hkk as Hh _. subst h'.
+    exists ms, props, sub0, sub', f. repeat split; try assumption.
+    rewrite Hg. apply msg_get_put_same.
+  Qed.
+
+  (* ---------------------------------------------------------------- any member: decoded, and what it stored is kept *)
+  Theorem member_survives props : props_separate props ->
+    forall f d ms m seen m', tr_object orc e f d props ms m seen = Ok m' ->
+    forall key v p, In (key, v) ms -> v <> JNull -> find_prop props key = Some p -> p_path p <> [] ->
+    exists f0 m0 m1, tr_present orc e f0 (d + 1) p v m0 = Ok m1 /\
+                     get_path (p_path p) m' = get_path (p_path p) m1.
+  Proof.
+    intros Hsep. induction f as [|f IH]; intros d ms m seen m' H key v p Hin Hv Hp Hq; [discriminate|].
+    rewrite tr_object_S in H. destruct ms as [|[key0 v0] r]; [contradiction|].
+    destruct (find_prop props key0) as [q|] eqn:Eq; [|discriminate].
+    destruct (tr_member d (tr_present orc e f (d + 1) q) q v0 m seen) as [[m1 seen1]| | |] eqn:Em; try discriminate.
+    cbn [obind fst snd] in H.
+    destruct Hin as [Heq | Hin]; [|eapply IH; eassumption].
+    inversion Heq; subst key0 v0; clear Heq. rewrite Hp in Eq. inversion Eq; subst q; clear Eq.
+    destruct (find_prop_In _ _ _ Hp) as [Hinp _].
+    unfold tr_member in Em. destruct (max_nesting_depth <? d + 1)%N; [discriminate|].
+    assert (G : exists m2, tr_present orc e f (d + 1) p v m = Ok m2 /\ m1 = m2 /\ seen1 = p_json p :: seen).
+    { destruct v; try congruence;
+        (destruct (mem_bytes (p_json p) seen); [discriminate|]);
+        (destruct (oneof_conflict p m); [discriminate|]);
+        match type of Em with context[tr_present orc e f (d + 1) p ?v m] =>
+          destruct (tr_present orc e f (d + 1) p v m) as [m2| | |] eqn:Ep end; try discriminate;
+        cbn [obind] in Em; inversion Em; subst; eauto. }
+    destruct G as (m2 & Ep & -> & ->).
+    exists f, m, m2. split; [exact Ep|].
+    apply (tail_preserves props p Hsep Hinp Hq f d r m2 (p_json p :: seen) m'); [|exact H].
+    cbn [mem_bytes]. replace (bytes_eqb (p_json p) (p_json p)) with true; [reflexivity|].
+    symmetry. apply bytes_eqb_eq. reflexivity.
+  Qed.
 End Stored.
+
+(* ---------------------------------------------------------------- document level, byte level *)
+From J5V.proofs Require Import CodecDecTreeProofs.
+
+(* JSONToProto succeeded on a document that the tokenizer reads as the object ms: every non-null
+   member of the root object was decoded by its property's decoder, and the field it wrote is
+   unchanged in the final message *)
+Theorem document_members_stored orc e root props bs ms rest me m' :
+  lookup e root = Some (SObject props) -> props_separate e props ->
+  lex bs = (tokens_of (JObj ms) ++ rest, me) ->
+  decode_bytes orc e root bs = Ok m' ->
+  forall key v p, In (key, v) ms -> v <> JNull -> find_prop props key = Some p -> p_path p <> [] ->
+  exists f0 m0 m1, tr_present orc e f0 1 p v m0 = Ok m1 /\ get_path (p_path p) m' = get_path (p_path p) m1.
+Proof.
+  intros Hl Hsep Hlex Hd key v p Hin Hv Hp Hq.
+  rewrite (decode_bytes_tree orc e root bs (JObj ms) rest me Hlex) in Hd.
+  unfold tr_decode in Hd. rewrite Hl in Hd.
+  exact (member_survives orc e props Hsep _ 0%N ms [] [] m' Hd key v p Hin Hv Hp Hq).
+Qed.
+
+Theorem document_scalars_stored orc e root props bs ms rest me m' :
+  lookup e root = Some (SObject props) -> props_separate e props ->
+  lex bs = (tokens_of (JObj ms) ++ rest, me) ->
+  decode_bytes orc e root bs = Ok m' ->
+  forall key v p k, In (key, v) ms -> v <> JNull -> find_prop props key = Some p ->
+    p_ty p = FScalar k -> p_path p <> [] ->
+    exists x, scalar_from_go orc k (goval_of_json v) = Ok x /\ get_path (p_path p) m' = stored_scalar p x.
+Proof.
+  intros Hl Hsep Hlex Hd key v p k Hin Hv Hp Hk Hq.
+  rewrite (decode_bytes_tree orc e root bs (JObj ms) rest me Hlex) in Hd.
+  unfold tr_decode in Hd. rewrite Hl in Hd.
+  exact (scalar_member_stored orc e props Hsep _ 0%N ms [] [] m' Hd key v p k Hin Hv Hp Hk Hq).
+Qed.
